@@ -9,6 +9,9 @@
 extern "C" {
 #include <soundswallower/config_defs.h>
 #include <soundswallower/fe.h>
+#include <soundswallower/cmn.h>
+#include <soundswallower/feat.h>
+#include <soundswallower/acmod.h>
 #include <soundswallower/ckd_alloc.h>
 #include <soundswallower/bin_mdef.h>
 #include <soundswallower/hmm.h>
@@ -678,6 +681,25 @@ Verdict cmnFixpoint(decoder_t *d, const char *when) {
   return Verdict::pass();
 }
 
+// the exported text says what the state is: every field of decoder_get_cmn(update = no) equals, to the six digits
+// the text carries, the mean that is being subtracted right now (read through the installed header cmn.h)
+Verdict cmnTextMatchesState(decoder_t *d, const char *when) {
+  cmn_t *cm = d->acmod->fcb->cmn_struct;
+  const char *g = decoder_get_cmn(d, 0);
+  PBT_CHECK(g != NULL, "cmn-text", when << ": decoder_get_cmn returned NULL");
+  std::string g1 = g;
+  std::istringstream is(g1);
+  std::string tok;
+  int i = 0;
+  while (std::getline(is, tok, ',') && i < cm->veclen) {
+    double x = strtod(tok.c_str(), nullptr), m = (double)cm->cmn_mean[i];
+    if (std::isfinite(m))
+      PBT_CHECK(std::fabs(x - m) <= 2e-5 * std::fabs(m) + 1e-30, "cmn-text-differs-from-state", when << ": field " << i << " of the exported text '" << g1 << "' is " << x << " while the mean in use is " << m);
+    ++i;
+  }
+  return Verdict::pass();
+}
+
 Verdict propC18(Choices &c, Ctx &ctx) {
   size_t family = c.weighted({4, 6});
   if (family == 0) {
@@ -782,10 +804,11 @@ Verdict propC18(Choices &c, Ctx &ctx) {
   bool fullUtt = c.coin(30);
   size_t N;
   long tier = getenv("VERIF_TIER") && !strcmp(getenv("VERIF_TIER"), "thorough");
-  switch (c.weighted({3, 6, tier ? 2 : 0})) {
+  switch (c.weighted({3, 6, tier ? 2 : 0, 2})) {
   case 0: N = (size_t)c.range(1, 4000); break;
   case 1: N = (size_t)c.range(4000, 48000); break;
-  default: N = (size_t)c.range(480000, 2880000); break; // 30 s - 3 min
+  case 2: N = (size_t)c.range(480000, 2880000); break; // 30 s - 3 min
+  default: N = (size_t)c.range(56000, 170000); break;  // 3.5 - 10 s: long enough for the live mean to shift its window
   }
   std::string sdesc;
   bool useFloat;
@@ -815,7 +838,9 @@ Verdict propC18(Choices &c, Ctx &ctx) {
   PBT_CHECK(decoder_start_utt(d) == 0, "start-utt-failed", "start_utt failed");
   size_t pos = 0;
   while (pos < N) {
-    size_t len = fullUtt ? N : std::min<size_t>(N - pos, (size_t)c.range(1000, 20000));
+    uint32_t lenRaw = c.raw(); // remainder: the block length as before; quotient: export the CMN text after this block?
+    size_t len = fullUtt ? N : std::min<size_t>(N - pos, (size_t)(1000 + lenRaw % 19001));
+    bool exportAfter = !fullUtt && (lenRaw / 19001) % 3 == 2;
     int r;
     if (useFloat) {
       std::vector<float> f(len);
@@ -827,6 +852,15 @@ Verdict propC18(Choices &c, Ctx &ctx) {
     }
     PBT_CHECK(r >= 0, "process-error", "process returned " << r);
     pos += len;
+    if (exportAfter) {
+      Verdict v = cmnTextMatchesState(d, "in the middle of the utterance");
+      if (!v.ok) {
+        gInspect = false;
+        return v;
+      }
+      ctx.label("cmn-text-read-mid-utterance");
+      ctx.labelIf(pos > 300 * 160, "cmn-text-read-mid-utterance:after>300-frames");
+    }
   }
   PBT_CHECK(decoder_end_utt(d) == 0, "end-utt-failed", "end_utt failed");
   gInspect = false;
